@@ -232,44 +232,7 @@ func runC05(c *eng.Ctx) {
 	})
 
 	// ---- 3b. a failed page roll-over leaves the write cursor where it was ------------------------------------------
-	c.Rule("GUARD", "pkg/queue.queue{failed page acquisition leaves the cursor}", func() {
-		for _, x := range []struct {
-			fn     string
-			fields []string
-		}{
-			{qAlloc, []string{qT + ".messageOffset", qT + ".dataPageIndex", qT + ".dataPage"}},
-			{qPersist, []string{qT + ".indexPageIndex", qT + ".indexPage"}},
-		} {
-			f := c.Fn(x.fn)
-			acq := c.Some(f, invokeOn("PageFct", "AcquirePage"), "AcquirePage(next)")
-			succ := map[ssa.Instruction]bool{}
-			for _, r := range eng.SuccessReturns(f) {
-				succ[r] = true
-			}
-			var fails []eng.Site
-			for _, b := range f.Blocks {
-				for _, in := range b.Instrs {
-					if r, ok := in.(*ssa.Return); ok && !succ[r] && b != f.Recover {
-						fails = append(fails, eng.Site{Fn: f, Instr: r})
-					}
-				}
-			}
-			c.Check(len(fails) > 0, x.fn+":has-failing-exit", nil, f, x.fn+" reports a failed page acquisition", "no error return")
-			for i, st := range c.Some(f, eng.StoreField(x.fields...), "cursor stores") {
-				_, bad := eng.Reaches(f, st.Instr, fails, nil)
-				c.Check(!bad, fmt.Sprintf("%s:no-cursor-store-before-failing-exit[%d]", x.fn, i), st.Instr, f,
-					"the cursor (page index, page, offset) is moved only when the new page was acquired: no failing exit is reachable after a cursor store",
-					"store to "+p.Desc(st.Instr.(*ssa.Store).Addr)+" can be followed by an error return (the cursor then names a page that is not mapped)")
-			}
-			// and the stores into the new page position are made only on the success edge of the acquisition
-			for i, a := range acq {
-				for j, st := range p.Sites(f, eng.StoreField(x.fields[1:]...)) {
-					ok, why := eng.OkDominates(f, a.Instr, st.Instr)
-					c.Check(ok, fmt.Sprintf("%s:page-switch-only-after-acquire[%d,%d]", x.fn, i, j), st.Instr, f, "the page index / page is switched only after AcquirePage succeeded", why)
-				}
-			}
-		}
-	})
+	c.Rule("GUARD", "pkg/queue.queue{failed page acquisition leaves the cursor}", func() { failedAcquireLeavesCursor(c) })
 
 	// ---- 3c. index page number and in-page slot are computed from the same sequence --------------------------------
 	c.Rule("SYMMETRY", "pkg/queue.queue{page = s / N, slot = s % N for one s}", func() { pageSlotOfOneSequence(c) })
@@ -941,5 +904,46 @@ func pageSlotOfOneSequence(c *eng.Ctx) {
 	}
 	if total < 4 {
 		c.Undecided("expected >= 4 page/slot pairs, found %d", total)
+	}
+}
+
+func failedAcquireLeavesCursor(c *eng.Ctx) {
+	p := c.P
+	_ = p
+	for _, x := range []struct {
+		fn     string
+		fields []string
+	}{
+		{qAlloc, []string{qT + ".messageOffset", qT + ".dataPageIndex", qT + ".dataPage"}},
+		{qPersist, []string{qT + ".indexPageIndex", qT + ".indexPage"}},
+	} {
+		f := c.Fn(x.fn)
+		acq := c.Some(f, invokeOn("PageFct", "AcquirePage"), "AcquirePage(next)")
+		succ := map[ssa.Instruction]bool{}
+		for _, r := range eng.SuccessReturns(f) {
+			succ[r] = true
+		}
+		var fails []eng.Site
+		for _, b := range f.Blocks {
+			for _, in := range b.Instrs {
+				if r, ok := in.(*ssa.Return); ok && !succ[r] && b != f.Recover {
+					fails = append(fails, eng.Site{Fn: f, Instr: r})
+				}
+			}
+		}
+		c.Check(len(fails) > 0, x.fn+":has-failing-exit", nil, f, x.fn+" reports a failed page acquisition", "no error return")
+		for i, st := range c.Some(f, eng.StoreField(x.fields...), "cursor stores") {
+			_, bad := eng.Reaches(f, st.Instr, fails, nil)
+			c.Check(!bad, fmt.Sprintf("%s:no-cursor-store-before-failing-exit[%d]", x.fn, i), st.Instr, f,
+				"the cursor (page index, page, offset) is moved only when the new page was acquired: no failing exit is reachable after a cursor store",
+				"store to "+p.Desc(st.Instr.(*ssa.Store).Addr)+" can be followed by an error return (the cursor then names a page that is not mapped)")
+		}
+		// and the stores into the new page position are made only on the success edge of the acquisition
+		for i, a := range acq {
+			for j, st := range p.Sites(f, eng.StoreField(x.fields[1:]...)) {
+				ok, why := eng.OkDominates(f, a.Instr, st.Instr)
+				c.Check(ok, fmt.Sprintf("%s:page-switch-only-after-acquire[%d,%d]", x.fn, i, j), st.Instr, f, "the page index / page is switched only after AcquirePage succeeded", why)
+			}
+		}
 	}
 }
